@@ -236,7 +236,7 @@ def universe(tier, seed, shard, nshards):
             if idx % nshards != shard:
                 continue
             r, c = len(s1), len(s2)
-            psis = [None, 1, (0, 1, 0, 1), (1, 0, 1, 0), (0, 0, 0, c), (0, r, 0, 0), (1, 1, 0, 0)]
+            psis = [None, 1, (0, 1, 0, 1), (1, 0, 1, 0), (0, 0, 0, c), (0, r, 0, 0), (1, 1, 0, 0), (1, 0, 0, 0), (0, 0, 1, 0)]
             for w in (None, 1, 2):
                 for pen in (None, 0.5):
                     for ms in (None, 1.2):
@@ -322,7 +322,7 @@ def run(ctx):
         rule='every case x producers {Python warping_paths, C full matrix, C compact+expand, C compact + every slice (small shapes)}; every cell compared with the reference '
              'table of per-cell optima under the freedoms C04 names; returned distance compared with the distance-only routine; non-trivial = band excludes cells or -1 marks present',
         bounds={'alphabet': list(univ.alphabet(univ.BASE3, ctx.seed)),
-                'U1': 'all pairs len 1..3 x window{None,1,2} x penalty x max_step x inner x 7 psi forms x max_dist{None,1.6%s} x (keep_int_repr,psi_neg) in {(F,T),(T,F)}' % (',0.9,2.2' if ctx.thorough else ''),
+                'U1': 'all pairs len 1..3 x window{None,1,2} x penalty x max_step x inner x 9 psi forms x max_dist{None,1.6%s} x (keep_int_repr,psi_neg) in {(F,T),(T,F)}' % (',0.9,2.2' if ctx.thorough else ''),
                 'U2': 'shapes up to %dx%d: every slice [rb:re, cb:ce] of the full matrix, every window, 7 psi forms' % ((5, 4) if ctx.thorough else (4, 3)),
                 'U3': 'all shapes up to %d x every window x catalogue values' % (6 if ctx.thorough else 5),
                 'U4': 'ndim 2, len 1..2'},
